@@ -10,8 +10,9 @@
 -/
 import Gzx.Proofs.RS
 import Gzx.Proofs.MinDist
+import Gzx.Proofs.SingleError
 namespace Gzx.Properties.C04
-open Gzx Gzx.GF Gzx.RS Gzx.Ref.GF Gzx.Proofs.GF Gzx.Proofs.Poly Gzx.Proofs.RS Gzx.Proofs.MinDist
+open Gzx Gzx.GF Gzx.RS Gzx.Ref.GF Gzx.Proofs.GF Gzx.Proofs.Poly Gzx.Proofs.RS Gzx.Proofs.MinDist Gzx.Proofs.SingleError
 
 /-! ## (a) field arithmetic = polynomial arithmetic modulo the primitive polynomial -/
 
@@ -194,15 +195,16 @@ What is proved below (`rs_corrects_partial_*`):
                                (minimum distance `r+1`, Vandermonde argument), hence
      `rs_unique_nearest`     — the code word within distance `⌊r/2⌋` of a received word is unique, so
                                the word the property demands is the only admissible answer;
- (3) clean words pass unchanged (`rs_decode_clean` above, the `|E| = 0` case of `rs_corrects`).
-Missing for the full theorem: the key equation `Λ·S ≡ Ω (mod x^r)` for the output of the model's
+ (3) `rs_corrects_single`    — the case `|E| = 1` of `rs_corrects` end to end through the model decoder
+                               (syndromes, Euclid, locator shortcut, Forney with the generator-base
+                               correction, correction loop): every field, every length `n ≤ size-1`,
+                               every `r ≥ 2`, every position, every non-zero magnitude;
+     clean words pass unchanged (`rs_decode_clean` above, the case `|E| = 0`).
+Missing for the full theorem (`2 ≤ |E| ≤ ⌊r/2⌋`): the key equation `Λ·S ≡ Ω (mod x^r)` for the output of the model's
 `runEuclideanAlgorithm` (Euclid invariants + uniqueness of the solution of degree ≤ r/2), Chien search
 finds exactly the inverse locators, Forney's formula with the generator-base correction.
-For `1 ≤ |E| ≤ ⌊r/2⌋` the evidence is the correspondence + oracle part of the check (every single- and
+For `2 ≤ |E| ≤ ⌊r/2⌋` the evidence is the correspondence + oracle part of the check (every single- and
 double-error pattern of four short codes in all six fields, sampled shapes, Chien boundary roots). -/
-
-/-- Hamming weight: number of non-zero symbols -/
-abbrev wt (w : List Nat) : Nat := weight w
 
 /-- (1) syndromes are linear: the value of `c + e` at any field element is the xor of the values -/
 theorem rs_syndromes_linear (F : GF) (h : FieldOK F) (c e : List Nat) (hlen : c.length = e.length)
@@ -212,74 +214,17 @@ theorem rs_syndromes_linear (F : GF) (h : FieldOK F) (c e : List Nat) (hlen : c.
   rw [Nat.xor_zero] at this
   exact this
 
-theorem zipWith_xor_all_zero : ∀ (a b : List Nat), a.length = b.length →
-    (∀ x, x ∈ List.zipWith (· ^^^ ·) a b → x = 0) → a = b
-  | [], [], _, _ => rfl
-  | [], _ :: _, h, _ => by simp at h
-  | _ :: _, [], h, _ => by simp at h
-  | x :: xs, y :: ys, hl, hz => by
-    have h1 : x ^^^ y = 0 := hz _ (by simp)
-    have h2 := zipWith_xor_all_zero xs ys (by simpa using hl) (fun z hz' => hz z (by simp [hz']))
-    rw [xor_eq_zero h1, h2]
-
 /-- (2) minimum distance `r + 1`: two code words (zero syndromes `S_0 … S_{r-1}`) of the same length
     `n ≤ size - 1` that differ in at most `r` positions are equal -/
 theorem rs_min_distance (F : GF) (h : FieldOK F) (c1 c2 : List Nat) (r : Nat)
     (hlen : c1.length = c2.length) (hn : c1.length ≤ F.size - 1) (h1 : InField F c1) (h2 : InField F c2)
     (hz1 : ZeroSyndromes F c1 r) (hz2 : ZeroSyndromes F c2 r)
-    (hd : wt (List.zipWith (· ^^^ ·) c1 c2) ≤ r) : c1 = c2 := by
+    (hd : weight (List.zipWith (· ^^^ ·) c1 c2) ≤ r) : c1 = c2 := by
   apply zipWith_xor_all_zero c1 c2 hlen
   apply min_distance h.2 F.base r _ (InR_zipWith_xor h.2 c1 c2 h1 h2) (by simp [← hlen]; exact hn) hd
   intro i hi
   rw [← alpha_eq_pw F h, rs_syndromes_linear F h c1 c2 hlen h1 h2, hz1 i hi, hz2 i hi]
   rfl
-
-theorem weight_triangle : ∀ (a v b : List Nat), a.length = v.length → v.length = b.length →
-    wt (List.zipWith (· ^^^ ·) a b) ≤ wt (List.zipWith (· ^^^ ·) a v) + wt (List.zipWith (· ^^^ ·) v b)
-  | [], [], [], _, _ => Nat.le_refl _
-  | [], _ :: _, _, h, _ => by simp at h
-  | _ :: _, [], _, h, _ => by simp at h
-  | _, [], _ :: _, _, h => by simp at h
-  | _, _ :: _, [], _, h => by simp at h
-  | x :: xs, y :: ys, z :: zs, h1, h2 => by
-    have ih := weight_triangle xs ys zs (by simpa using h1) (by simpa using h2)
-    unfold wt weight at *
-    simp only [List.zipWith_cons_cons]
-    by_cases hxz : x ^^^ z = 0
-    · rw [List.filter_cons_of_neg (by simp [hxz])]
-      have a1 := List.length_filter_le (· != 0) ((x ^^^ y) :: List.zipWith (· ^^^ ·) xs ys)
-      have : (List.filter (· != 0) ((x ^^^ y) :: List.zipWith (· ^^^ ·) xs ys)).length ≥
-          (List.filter (· != 0) (List.zipWith (· ^^^ ·) xs ys)).length := by
-        by_cases hh : x ^^^ y = 0
-        · rw [List.filter_cons_of_neg (by simp [hh])]; exact Nat.le_refl _
-        · rw [List.filter_cons_of_pos (by simpa using hh)]; simp
-      have : (List.filter (· != 0) ((y ^^^ z) :: List.zipWith (· ^^^ ·) ys zs)).length ≥
-          (List.filter (· != 0) (List.zipWith (· ^^^ ·) ys zs)).length := by
-        by_cases hh : y ^^^ z = 0
-        · rw [List.filter_cons_of_neg (by simp [hh])]; exact Nat.le_refl _
-        · rw [List.filter_cons_of_pos (by simpa using hh)]; simp
-      omega
-    · rw [List.filter_cons_of_pos (by simpa using hxz)]
-      have hor : x ^^^ y ≠ 0 ∨ y ^^^ z ≠ 0 := by
-        by_cases hh : x ^^^ y = 0
-        · right
-          rw [xor_eq_zero hh] at hxz; exact hxz
-        · exact Or.inl hh
-      rcases hor with hh | hh
-      · rw [List.filter_cons_of_pos (l := List.zipWith (· ^^^ ·) xs ys) (by simpa using hh)]
-        have : (List.filter (· != 0) ((y ^^^ z) :: List.zipWith (· ^^^ ·) ys zs)).length ≥
-            (List.filter (· != 0) (List.zipWith (· ^^^ ·) ys zs)).length := by
-          by_cases hh : y ^^^ z = 0
-          · rw [List.filter_cons_of_neg (by simp [hh])]; exact Nat.le_refl _
-          · rw [List.filter_cons_of_pos (by simpa using hh)]; simp
-        simp only [List.length_cons]; omega
-      · rw [List.filter_cons_of_pos (l := List.zipWith (· ^^^ ·) ys zs) (by simpa using hh)]
-        have : (List.filter (· != 0) ((x ^^^ y) :: List.zipWith (· ^^^ ·) xs ys)).length ≥
-            (List.filter (· != 0) (List.zipWith (· ^^^ ·) xs ys)).length := by
-          by_cases hh : x ^^^ y = 0
-          · rw [List.filter_cons_of_neg (by simp [hh])]; exact Nat.le_refl _
-          · rw [List.filter_cons_of_pos (by simpa using hh)]; simp
-        simp only [List.length_cons]; omega
 
 /-- (2') unique nearest code word: if a received word `v` is within `t` positions of the code word `c`
     and of the code word `c'`, and `2t ≤ r`, then `c = c'`.  So `encode(d)` is the only code word a
@@ -287,10 +232,33 @@ theorem weight_triangle : ∀ (a v b : List Nat), a.length = v.length → v.leng
 theorem rs_unique_nearest (F : GF) (h : FieldOK F) (c c' v : List Nat) (r t : Nat)
     (hl1 : c.length = v.length) (hl2 : v.length = c'.length) (hn : c.length ≤ F.size - 1)
     (h1 : InField F c) (h2 : InField F c') (hz1 : ZeroSyndromes F c r) (hz2 : ZeroSyndromes F c' r)
-    (hd1 : wt (List.zipWith (· ^^^ ·) c v) ≤ t) (hd2 : wt (List.zipWith (· ^^^ ·) v c') ≤ t)
+    (hd1 : weight (List.zipWith (· ^^^ ·) c v) ≤ t) (hd2 : weight (List.zipWith (· ^^^ ·) v c') ≤ t)
     (ht : 2 * t ≤ r) : c = c' := by
   apply rs_min_distance F h c c' r (by omega) hn h1 h2 hz1 hz2
   have := weight_triangle c v c' hl1 hl2
   omega
+
+/-- (3) one corrupted symbol — any position, any non-zero error magnitude — is restored exactly, for every
+    code word length `n ≤ size - 1` and every parity count `r ≥ 2` (so `⌊r/2⌋ ≥ 1`), generator base 0 or 1 -/
+theorem rs_corrects_single (F : GF) (h : FieldOK F) (hb : F.base ≤ 1) (c : List Nat) (r j e : Nat)
+    (hr : 2 ≤ r) (hrb : r + F.base ≤ F.size) (hn : c.length ≤ F.size - 1) (hc : InField F c)
+    (hz : ZeroSyndromes F c r) (hj : j < c.length) (he0 : e ≠ 0) (he : e < F.size) :
+    decode F (c.set j (c[j] ^^^ e)) r = .ok c := by
+  unfold decode
+  rw [decodeD_single h hb c r j e hr hrb hn hc (fun i hi => by rw [← alpha_eq_pw F h]; exact hz i hi) hj he0 he]
+
+/-- hence `decode (encode d + e) = encode d` for a single-symbol error `e` -/
+theorem rs_decode_encode_single (F : GF) (h : FieldOK F) (hb : F.base ≤ 1) (data : List Nat) (r j e : Nat)
+    (hk : data ≠ []) (hr : 2 ≤ r) (hd : InField F data) (hn : data.length + r ≤ F.size - 1)
+    (hj : j < data.length + r) (he0 : e ≠ 0) (he : e < F.size) :
+    ∃ w, ∃ hw : w.length = data.length + r, encodeWord F data r = .ok w ∧
+      decode F (w.set j (w[j]'(by omega) ^^^ e)) r = .ok w := by
+  have hrb : r + F.base ≤ F.size := by omega
+  obtain ⟨w, h1, h2, h3, h4⟩ := rs_encode_zero_syndromes F h data r hk (by omega) hd hrb
+  exact ⟨w, h2, h1, rs_corrects_single F h hb w r j e hr hrb (by omega) h3 h4 (by omega) he0 he⟩
+
+/-! non-vacuity: instances with one and two corrupted symbols (kernel evaluation) -/
+example : decode aztecParam ([5, 10, 3, 9, 6, 2, 14].set 2 (3 ^^^ 7)) 4 = .ok [5, 10, 3, 9, 6, 2, 14] := by
+  decide +kernel
 
 end Gzx.Properties.C04
